@@ -340,3 +340,33 @@ def forge_sst(data_payloads, index_entries=None, filter_payload=None, lie=None):
     out += enc_final(enc_meta(istart, ilimit, crc32c(ipayload)), enc_meta(ilimit, flimit, crc32c(fpl)),
                      b"\x00" * 32, 0, 0, flimit)
     return bytes(out)
+
+
+# ---------------------------------------------------------------- SipHash-2-4 (sbbf.rs KEY)
+SBBF_KEY = bytes([98, 124, 9, 13, 179, 65, 108, 38, 187, 225, 14, 208, 137, 80, 122, 145])
+
+
+def siphash24(data, key16=SBBF_KEY):
+    M = (1 << 64) - 1
+    k0 = int.from_bytes(key16[:8], "little")
+    k1 = int.from_bytes(key16[8:], "little")
+    v = [k0 ^ 0x736f6d6570736575, k1 ^ 0x646f72616e646f6d, k0 ^ 0x6c7967656e657261, k1 ^ 0x7465646279746573]
+
+    def rotl(x, b):
+        return ((x << b) | (x >> (64 - b))) & M
+
+    def rnd():
+        v[0] = (v[0] + v[1]) & M; v[1] = rotl(v[1], 13); v[1] ^= v[0]; v[0] = rotl(v[0], 32)
+        v[2] = (v[2] + v[3]) & M; v[3] = rotl(v[3], 16); v[3] ^= v[2]
+        v[0] = (v[0] + v[3]) & M; v[3] = rotl(v[3], 21); v[3] ^= v[0]
+        v[2] = (v[2] + v[1]) & M; v[1] = rotl(v[1], 17); v[1] ^= v[2]; v[2] = rotl(v[2], 32)
+
+    n = len(data)
+    for i in range(0, n - n % 8, 8):
+        m = int.from_bytes(data[i:i + 8], "little")
+        v[3] ^= m; rnd(); rnd(); v[0] ^= m
+    m = int.from_bytes(data[n - n % 8:] + b"\x00" * (7 - n % 8) + bytes([n & 0xff]), "little")
+    v[3] ^= m; rnd(); rnd(); v[0] ^= m
+    v[2] ^= 0xff
+    rnd(); rnd(); rnd(); rnd()
+    return v[0] ^ v[1] ^ v[2] ^ v[3]
